@@ -477,3 +477,49 @@ V("c07-twin-einsum-sorted-other-spelling", "C07", "-", "dask_array/_einsum.py",
   "        unused = sorted(einsum_symbols_set - set(used))", "        unused = list(sorted(einsum_symbols_set.difference(used)))", twin=True)
 V("c07-twin-int-set-order", "C07", "-", "dask_array/_rechunk.py",
   "        return \"rechunk-p2p-\" + tokenize(*self.operands)", "        axes = list({i for i in range(self.array.ndim)})\n        return \"rechunk-p2p-\" + tokenize(axes, *self.operands)", twin=True)
+
+# ---------------------------------------------------------------------------- C09
+V("c09-rootalias-enters-cache", "C09", "R09.2", "dask_array/_expr.py",
+  "        # would get this pin spliced into its middle on a cache hit.\n        return self\n",
+  "        # would get this pin spliced into its middle on a cache hit.\n        return lowered.setdefault(self._name, self)\n", expect="RootAlias.lower_once")
+V("c09-fromgraph-enters-cache", "C09", "R09.2", "dask_array/io/_from_graph.py",
+  "        # silently spliced in on a cache hit.\n        return self\n",
+  "        # silently spliced in on a cache hit.\n        lowered[self._name] = self\n        return self\n", expect="FromGraph.lower_once")
+V("c09-exact-fromarray-enters-cache", "C09", "R09.2", "dask_array/io/_from_array.py",
+  "        if self.operand(\"_name_is_exact\"):\n            return self\n        return super().lower_once(lowered)",
+  "        return super().lower_once(lowered)", expect="FromArray.lower_once")
+V("c09-lower-remembers-on-self", "C09", "R09.3", "dask_array/_rechunk.py",
+  "    def _lower(self):\n        if not self.balance and (self.chunks == self.array.chunks):\n            return self.array\n",
+  "    def _lower(self):\n        if not self.balance and (self.chunks == self.array.chunks):\n            self._noop = True\n            return self.array\n", expect="Rechunk._lower")
+V("c09-hook-global", "C09", "R09.3", "dask_array/_rechunk.py",
+  "    def _lower(self):\n        if not self.balance and (self.chunks == self.array.chunks):\n            return self.array\n",
+  "    def _lower(self):\n        global _LAST_LOWERED\n        _LAST_LOWERED = self._name\n        if not self.balance and (self.chunks == self.array.chunks):\n            return self.array\n", expect="Rechunk._lower")
+V("c09-module-memo-cache", "C09", "R09.5", "dask_array/_rechunk.py", None, None, expect="_METHOD_CACHE", edits=[
+  ("dask_array/_rechunk.py", "    if method := config.get(\"array.rechunk.method\", None):", "    if old_chunks in _METHOD_CACHE:\n        return _METHOD_CACHE[old_chunks]\n    _METHOD_CACHE[old_chunks] = \"tasks\"\n    if method := config.get(\"array.rechunk.method\", None):"),
+  ("dask_array/_rechunk.py", None, "\n_METHOD_CACHE = {}\n"),
+])
+V("c09-new-writer-of-lower-cache", "C09", "R09.1", "dask_array/_materialize.py",
+  "    name = expr._name\n    chunks = expr.chunks\n\n    expr = _lower(expr, optimize_graph)\n",
+  "    name = expr._name\n    chunks = expr.chunks\n\n    expr = _lower(expr, optimize_graph)\n    _LOWER_CACHE[name] = expr\n", expect="_materialize")
+V("c09-lru-cache-reads-config", "C09", "R09.5", "dask_array/reductions/_reduction.py", None, None, expect="_default_split_every", edits=[
+  ("dask_array/reductions/_reduction.py", "    split_every = split_every or config.get(\"split_every\", 16)\n", "    split_every = split_every or _default_split_every()\n"),
+  ("dask_array/reductions/_reduction.py", "def _normalize_split_every(split_every, axis):", "@functools.lru_cache(maxsize=None)\ndef _default_split_every():\n    return config.get(\"split_every\", 16)\n\n\ndef _normalize_split_every(split_every, axis):"),
+])
+V("c09-lowered-expr-ignores-policy", "C09", "R09.4", "dask_array/_collection.py",
+  "_materialize(self.expr, optimize_graph=self._lowered_expr_optimize_graph)", "_materialize(self.expr)", expect="Array._lowered_expr")
+V("c09-twin-rename-cache-param", "C09", "-", "dask_array/io/_from_graph.py",
+  "    def lower_once(self, lowered):\n        # An opaque graph", "    def lower_once(self, cache):\n        # An opaque graph", twin=True)
+V("c09-twin-local-dict-in-hook", "C09", "-", "dask_array/_rechunk.py",
+  "    def _lower(self):\n        if not self.balance and (self.chunks == self.array.chunks):\n            return self.array\n",
+  "    def _lower(self):\n        seen = {}\n        seen[self._name] = True\n        if not self.balance and (self.chunks == self.array.chunks):\n            return self.array\n", twin=True)
+
+# ---------------------------------------------------------------------------- C07 (R07.6 / R07.7)
+V("c07-new-config-read-at-lowering", "C07", "R07.6", "dask_array/_rechunk.py",
+  "    def _lower(self):\n        if not self.balance and (self.chunks == self.array.chunks):\n            return self.array\n",
+  "    def _lower(self):\n        if config.get(\"array.rechunk.skip-noop\", True) and not self.balance and (self.chunks == self.array.chunks):\n            return self.array\n", expect="array.rechunk.skip-noop")
+V("c07-split-every-resolved-at-lowering", "C07", "R07.7", "dask_array/reductions/_reduction.py",
+  "            _normalize_split_every(split_every, axis),\n            combine,", "            _normalize_split_every(split_every, axis) if split_every else None,\n            combine,", expect="split_every")
+V("c07-twin-split-every-local", "C07", "-", "dask_array/reductions/_reduction.py", None, None, twin=True, edits=[
+  ("dask_array/reductions/_reduction.py", "            _normalize_split_every(split_every, axis),\n            combine,", "            fan_in,\n            combine,"),
+  ("dask_array/reductions/_reduction.py", "    # Create the Reduction expression\n    result = new_collection(", "    # Create the Reduction expression\n    fan_in = _normalize_split_every(split_every, axis)\n    result = new_collection("),
+])
